@@ -102,6 +102,12 @@ def run(ctx, ck) -> None:
         reach = _self_closure(table, cls, mv.node)
         missing = sorted(k for k, v in used.items() if reach.get(k) is not v)
         nshared += 1
+        from .. import report as _report
+
+        if missing and (qualname(am.node) in _report.RESTRUCTURED or cls.qual in _report.RESTRUCTURED):
+            ck.incomplete('L2', mv.node, f'{cls.name}.as_matrix builds its dense form with self.{missing[0]}(), which mv does not use; as_matrix was restructured ({_report.RESTRUCTURED.get(qualname(am.node)) or _report.RESTRUCTURED.get(cls.qual)}): '
+                          'whether both place the coefficients the same way is not decided structurally', instance=f'{cls.name} shared helpers')
+            continue
         ck.expect('L2', not missing, mv.node, f'{cls.name}.mv places its values through {sorted(used)} of the same object, the helpers its dense form uses',
                   f'{cls.name}.as_matrix builds the dense form with self.{missing[0] if missing else ""}(), but {cls.name}.mv does not go through that helper on the same object: '
                   'the dense form and the matrix-free action take their coefficients from different places', instance=f'{cls.name} shared helpers')
